@@ -21,3 +21,6 @@ def run(ctx, rep):
     from ..rules import more6
     import re as _re
     more6.rule_precision_family(mod, rep, floor=20, sel=lambda f: _re.search(r"gscon|lacon|langs|PivotGrowth|gssvx|sum1|max1", f.name) is not None)
+    more6.rule_pivot_growth_column(mod, rep)
+    from ..rules import more5 as _m5
+    _m5.rule_inverse_fill(mod, rep)
